@@ -349,6 +349,97 @@ def _bounds_rule(chk, fn):
     chk.instance(rule, cnt)
 
 
+def _reset_rule(chk, prog, tu):
+    """peg_rule leaves captures, tags and scratch behind when a match attempt fails part-way (only choice-like combinators
+    roll back).  An entry point that tries again at the next offset must start from a clean capture state, so between two
+    peg_rule calls on the same PegCall there has to be a peg_call_reset on every path (typestate clean -> used -> clean)."""
+    rule = "C12-RESET"
+    chk.rule(rule, "entry points call peg_rule only on a freshly initialised or reset capture state")
+    n = 0
+    for fn in tu.funcs.values():
+        sites = fn.calls("peg_rule")
+        if not sites or fn.name == "peg_rule":
+            continue
+        chk.analysed(fn)
+
+        def transfer(st, x):
+            if x.k == "call" and x.callee in ("peg_call_reset", "peg_cfun_init"):
+                return frozenset(["clean"])
+            if x.k == "call" and x.callee == "peg_rule":
+                return frozenset(["used"])
+            return st
+        IN, OUT = flow.forward(fn, frozenset(), transfer, lambda a, b: a | b)
+        for x, st in flow.states_at(fn, IN, transfer):
+            if x in sites:
+                n += 1
+                chk.instance(rule)
+                if "used" in st:
+                    chk.violation(rule, "peg.c", fn.name, "peg_rule", x.loc,
+                                  "%s can call peg_rule again without peg_call_reset since the previous attempt: captures and tags "
+                                  "left by a failed attempt leak into the next one" % fn.name)
+                elif "clean" not in st:
+                    chk.violation(rule, "peg.c", fn.name, "peg_rule:uninit", x.loc,
+                                  "%s calls peg_rule before the call state was initialised" % fn.name)
+                else:
+                    chk.ok(rule, "%s: peg_rule at %s on a clean state" % (fn.name, x.loc))
+    chk.floor(rule, 4, n)
+
+
+def _emits_rule(chk, prog, tu):
+    """The grammar compiler records the index of the rule it is about to compile BEFORE calling the special's handler (and
+    caches it for named rules), so every handler must append its rule at that index on every path.  A handler that
+    returns without emitting leaves the recorded index pointing at whatever is compiled next."""
+    rule = "C12-EMITS"
+    chk.rule(rule, "every grammar special appends its rule on every returning path")
+    tab = tu.ginit("peg_specials")
+    if tab is None:
+        raise AnalysisBroken("peg_specials[] not found")
+    handlers = set()
+    for x in tab.walk():
+        if x.k == "ref" and x.name in tu.funcs:
+            handlers.add(x.name)
+    if len(handlers) < 30:
+        raise AnalysisBroken("only %d grammar specials found" % len(handlers))
+    always = {"reserve", "emit_bytes"}
+
+    def emits_on_all_paths(fn):
+        def transfer(st, x):
+            if x.k == "call" and x.callee in always:
+                return frozenset(["e"])
+            if x.k == "mem" and x.field == "bytecode" and x.in_macro("janet_v_push"):
+                return frozenset(["e"])
+            return st
+        IN, OUT = flow.forward(fn, frozenset(), transfer, lambda a, b: a & b)
+        bad = None
+        for b, kind in flow.exits(fn):
+            if kind == "return" and b.id in OUT and "e" not in OUT[b.id]:
+                bad = b
+        return bad
+    changed = True
+    while changed:
+        changed = False
+        for name, fn in tu.funcs.items():
+            if name in always or name in ("peg_compile1", "peg_rule"):
+                continue
+            if any(c.callee in always for c in fn.nodes if c.k == "call") or any(
+                    x.k == "mem" and x.field == "bytecode" and x.in_macro("janet_v_push") for x in fn.nodes):
+                if emits_on_all_paths(fn) is None:
+                    always.add(name)
+                    changed = True
+    for h in sorted(handlers):
+        chk.instance(rule)
+        fn = tu.funcs[h]
+        chk.analysed(fn)
+        if h in always:
+            chk.ok(rule, "%s emits on every path" % h)
+        else:
+            bad = emits_on_all_paths(fn)
+            last = bad.elems[-1] if bad is not None and bad.elems else None
+            chk.violation(rule, "peg.c", h, "emit", last.loc if last is not None else fn.loc,
+                          "%s can return without appending a rule to the bytecode: the index the compiler recorded (and cached) for "
+                          "this form then refers to the next rule compiled, or lies past the end" % h)
+
+
 def run(chk):
     prog = Program.load("default", units=["peg.c"])
     tu = prog.tus["peg.c"]
@@ -362,6 +453,8 @@ def run(chk):
     _backtrack_rule(chk, fn)
     _bounds_rule(chk, fn)
     _exhaustive_rule(chk, prog, tu, fn)
+    _reset_rule(chk, prog, tu)
+    _emits_rule(chk, prog, tu)
     chk.analysed(prog.need_func("peg_unmarshal", tu))
     chk.floor("C12-MODE", 10)
     chk.floor("C12-WINDOW", 6)
